@@ -46,7 +46,7 @@ CHECK = {'rule': 'rapid-generated definition programs (Set/SetDefault/AddFactory
                               'prepopulated-optional-field',
                               'prepopulated-optional-unresolved',
                               'prepopulated-in-factory',
-                              'two-providers-second-first',
+                              'two-providers-second-first', 'two-providers-foreign-tag-name',
                               'two-providers-second-last',
                               'two-providers-in-factory']},
  'tiers': {'quick': [{'test': '^TestProp$', 'checks': 5000, 'shards': 6, 'timeout': 240}, {'test': '^TestEnum$', 'shards': 2, 'timeout': 240}],
